@@ -147,7 +147,7 @@ PROPS['C11'] = dict(
   kani=[dict(crate='lib', harnesses=['proofs::o11_determine_index', 'proofs::o11_list_determine_index'], kind='complete', extra=['-Z', 'unstable-options', '--no-overflow-checks'], timeout=900, jobs=2, assumption_ids=['A-kani']),
         dict(crate='coll', harnesses=['proofs::o11_pop'], kind='bounded', bound='list len <= 2, cap 3', timeout=900, jobs=1, assumption_ids=['A-kani', 'A-bound']),
         dict(crate='coll', harnesses=['proofs::o11_remove', 'proofs::o11_insert'], kind='bounded', bound='list len <= 3, cap 3, every index 0..4', tier='thorough', timeout=1800, jobs=2, assumption_ids=['A-kani', 'A-bound'])],
-  verus=[dict(unit='listops', min_functions=6), dict(unit='native', min_functions=1), dict(unit='ncall', min_functions=1), dict(unit='natargs', min_functions=100), dict(unit='iteradapt', min_functions=3), dict(unit='sigkind', min_functions=1), dict(unit='strlen', min_functions=1)],
+  verus=[dict(unit='listops', min_functions=6), dict(unit='native', min_functions=1), dict(unit='ncall', min_functions=1), dict(unit='natargs', min_functions=100), dict(unit='iteradapt', min_functions=3), dict(unit='sigkind', min_functions=1), dict(unit='strlen', min_functions=2)],
   explanation='Verus proof of the real List push / pop / insert / remove against the sequence model (unbounded, with growth); loop-free Kani proof of index normalisation over every f64 (receiver length <= 8), bounded Kani checks of List buffer edits against a sequence model, Verus proof of the native signature gate',
   not_decided=['iterator adaptors, string natives, map natives, tuple/list natives other than index normalisation (callbacks, Hooks, str)'],
 )
